@@ -17,23 +17,30 @@ IMPORTS = "From FGV Require Import Model.Cis Spec.CisSpec Spec.CisCheck."
 CHECKS = ["agree", "spec"]
 CORRESPONDENCE = ("Model.Cis.{node_induced_connected_subgraphs,nics_inner,enumerateCIS,is_valid_extension,"
                   "is_existing_extension} ~ fgutils.algorithm.subgraph_enumeration.{node_induced_connected_subgraphs,"
-                  "_node_induced_connected_subgraphs,enumerateCIS,is_valid_extension,is_existing_extension} with DAG=None; "
+                  "_node_induced_connected_subgraphs,enumerateCIS,is_valid_extension,is_existing_extension}. The model ignores the optional "
+                  "DAG argument (pure bookkeeping that must not influence what is yielded): ~30% of the cases are ALSO run with "
+                  "DAG=nx.DiGraph(), both runs must pass the same checks and yield identical lists (runtime invariant); the contents "
+                  "of the DAG itself are not checked. A yielded list is read at the moment it is yielded. "
                   "compared: list(generator) as a family of node sets with multiplicities (yields_equivb: the property does not fix the "
                   "order of the yields nor the order inside a yielded list), or the exception class. With the pinned code the "
                   "model also reproduces the exact order (yields_eqb held on all 31564 thorough-tier cases)")
 RULE = ("quick: EVERY labelled simple graph on 1-4 nodes (all edge subsets, ids 0..n-1) x every anchor; every graph of the "
         "networkx atlas with <= 5 nodes x every anchor x {integer re-identification (contiguous/offset/sparse/negative/"
-        "shuffled ids, shuffled node and edge insertion order), non-integer ids (strings/tuples) with shuffled insertion "
-        "order}; random sparse graphs (tree + 0-3 extra edges, possibly disconnected, 2-10 nodes) with random id scheme and "
+        "shuffled/negshift [ids -k..n-k-1, k>=1: all below n, some negative, 0 present]/belown [distinct ints below n, some "
+        "negative, 0 present] ids, shuffled node and edge insertion order; in about half of these the anchor's id is forced to "
+        "be 0 or n-1), non-integer ids (strings/tuples) with shuffled insertion order}; every atlas graph with 2-4 (thorough: 2-6) "
+        "nodes x every anchor under negshift/belown ids with the anchor's id exactly 0; random sparse graphs (tree + 0-3 extra edges, possibly disconnected, 2-10 nodes) with random id scheme and "
         "anchor, 8% of them with one self-loop added; a few anchors that are not nodes. thorough: every labelled graph on 1-5 nodes x every anchor; every atlas "
         "graph with <= 7 nodes x every anchor x {as given, integer re-identification, non-integer ids}; random sparse graphs "
         "up to 14 nodes (at most 400 connected sets per case). Non-integer ids are mapped to distinct integers by the harness "
         "before the graph is handed to the model (the code uses ids only as dict keys and compares them with ==). "
+        "About 30% of all cases (chosen by the case index) are run both without and with DAG=nx.DiGraph(). "
         "non-trivial = anchor is a node and at least 2 sets are yielded; distinct = distinct (node order, adjacency "
         "order, anchor, id naming)")
 TRUSTED = ["model of networkx.Graph (Base/NX.v: node and adjacency dict order; relabel_nodes, neighbors) - validated by the exact comparison",
            "harness mapping of non-integer node ids to integers by position"]
-ASSUMPTIONS = ["DAG=None (the optional extension-DAG bookkeeping argument is not modelled)",
+ASSUMPTIONS = ["the optional DAG argument is not modelled: the theorems are about the DAG=None code path; runs with a DAG are only "
+               "required to yield exactly what the run without DAG yields (and to pass the same checks)",
                "the graph is an undirected networkx.Graph (not a multigraph); theorems assume Base.NX.wfb (unique ids, symmetric "
                "adjacency without repeated neighbours), which every such graph satisfies; self-loops are allowed",
                "node ids are Python ints in the model; other hashable ids are covered only through the harness renaming",
@@ -139,13 +146,75 @@ def mk(g, anchor, scheme, src, names=None, style=None):
     return {"graph": g, "anchor": anchor, "names": names, "scheme": scheme, "src": src, "style": style}
 
 
+INT_SCHEMES = gens.ID_SCHEMES + ["negshift", "belown"]
+
+
+def reid2(rng, g, anchor, scheme=None, anchor_id=None):
+    """Like gens.reid (new integer ids, node / edge insertion order shuffled) with two more id schemes and the
+    option to force the id the anchor gets.
+      negshift: ids -k .. n-k-1 for some 1 <= k <= n-1 (all below n, some negative, 0 present)
+      belown  : distinct ints below n, 0 present, at least one negative, not contiguous in general
+    anchor_id: None (whatever the scheme gives), 0 or "n-1": that value is made one of the ids and given to the anchor."""
+    scheme = scheme or rng.choice(INT_SCHEMES)
+    n = g.number_of_nodes()
+    old = list(g.nodes)
+    if scheme == "negshift":
+        k = rng.randint(1, max(1, n - 1))
+        new = [i - k for i in range(n)]
+    elif scheme == "belown":
+        pool = [x for x in range(-2 * n - 2, n) if x != 0]
+        new = [0] + rng.sample(pool, n - 1)
+        if n >= 2 and all(x >= 0 for x in new):
+            new[1] = -rng.randint(1, n + 1)
+        rng.shuffle(new)
+    elif scheme == "contig":
+        new = list(range(n))
+    elif scheme == "offset":
+        k = rng.randint(1, 20)
+        new = [i + k for i in range(n)]
+    elif scheme == "sparse":
+        new = sorted(rng.sample(range(0, 5 * n + 5), n))
+    elif scheme == "negative":
+        new = sorted(rng.sample(range(-n - 3, 2 * n + 3), n))
+    else:
+        new = rng.sample(range(0, 3 * n + 2), n)
+    if scheme in ("negshift", "shuffled") or rng.random() < 0.5:
+        rng.shuffle(new)                      # which node gets which id is random
+    m = dict(zip(old, new))
+    if anchor_id is not None:
+        t = n - 1 if anchor_id == "n-1" else anchor_id
+        if t in new:
+            other = [u for u in old if m[u] == t][0]
+            m[other], m[anchor] = m[anchor], t
+        else:
+            m[anchor] = t
+    h = nx.Graph()
+    order = list(old)
+    if scheme != "contig" or rng.random() < 0.3:
+        rng.shuffle(order)
+    for u in order:
+        h.add_node(m[u], **dict(g.nodes[u]))
+    es = list(g.edges(data=True))
+    rng.shuffle(es)
+    for u, v, d in es:
+        if rng.random() < 0.5:
+            u, v = v, u
+        h.add_edge(m[u], m[v], **dict(d))
+    return h, scheme, m
+
+
 def variants(rng, g, a, src, kinds):
     for kind in kinds:
         if kind == "plain":
             yield mk(g, a, "asgiven", src)
         elif kind == "reid":
-            h, scheme, m = gens.reid(rng, g)
+            h, scheme, m = reid2(rng, g, a, anchor_id=rng.choice([None, None, 0, "n-1"]))
             yield mk(h, m[a], scheme, src)
+        elif kind == "zero":
+            # all ids below n, some negative, the anchor's id is exactly 0
+            if g.number_of_nodes() >= 2:
+                h, scheme, m = reid2(rng, g, a, scheme=rng.choice(["negshift", "negshift", "belown"]), anchor_id=0)
+                yield mk(h, m[a], scheme, src)
         else:
             h, scheme, m = gens.reid(rng, g, scheme=rng.choice(["shuffled", "contig", "sparse"]))
             names, style = make_names(rng, list(h.nodes))
@@ -155,7 +224,15 @@ def variants(rng, g, a, src, kinds):
 def generate(seed, tier, ncases=None):
     it = itertools.islice(_generate(seed, tier), ncases) if ncases else _generate(seed, tier)
     for i, c in enumerate(it):
-        yield _with_history(seed, i, c)
+        yield _with_dag(seed, i, _with_history(seed, i, c))
+
+
+def _with_dag(seed, i, c):
+    """About 30% of the cases are additionally run with DAG=nx.DiGraph()."""
+    if lib.rng_for(seed, ID + ":dag", i).random() < 0.3:
+        c = dict(c)
+        c["dag"] = True
+    return c
 
 
 def _with_history(seed, i, c):
@@ -186,6 +263,8 @@ def _generate(seed, tier):
             rng = lib.rng_for(seed, ID, i)
             i += 1
             kinds = ["reid", "names"] if quick else ["plain", "reid", "names"]
+            if g.number_of_nodes() <= (4 if quick else 6):
+                kinds = kinds + ["zero"]
             yield from variants(rng, g, a, "atlas%d" % g.number_of_nodes(), kinds)
     # (3) random sparse graphs
     nrand = 120 if quick else 700
@@ -197,7 +276,7 @@ def _generate(seed, tier):
             a = rng.choice(list(g.nodes))
             if count_connected_sets(g, a, MAX_SETS) <= MAX_SETS:
                 break
-        yield from variants(rng, g, a, "random", [rng.choice(["reid", "reid", "names"])])
+        yield from variants(rng, g, a, "random", [rng.choice(["reid", "reid", "names", "zero"])])
     # (4) anchors that are not nodes of the graph
     for _ in range(6 if quick else 30):
         rng = lib.rng_for(seed, ID, i)
@@ -228,6 +307,26 @@ def corpus():
     for u, v in [(0, 1), (1, 2), (2, 3), (3, 0)]:
         g.add_edge(u, v, bond=1)
     yield mk(g, 2, "corpus", "corpus")
+    # with the optional DAG bookkeeping: star K1,3 anchored at a leaf, paw, ring with a chord
+    for nodes, edges, a in [([0, 1, 2, 3], [(0, 1), (0, 2), (0, 3)], 3),
+                            ([0, 1, 2, 3], [(0, 1), (1, 2), (2, 0), (2, 3)], 3),
+                            ([0, 1, 2, 3], [(0, 1), (1, 2), (2, 0), (2, 3)], 0),
+                            ([0, 1, 2, 3, 4], [(0, 1), (1, 2), (2, 3), (3, 4), (4, 0), (1, 3)], 2)]:
+        g = nx.Graph()
+        g.add_nodes_from(nodes)
+        for u, v in edges:
+            g.add_edge(u, v, bond=1)
+        c = mk(g, a, "corpus", "corpus")
+        c["dag"] = True
+        yield c
+    # ids below n with a negative one, anchor 0: the path -1 - 0 - 1, and 0 as the largest id
+    for nodes, edges, a in [([-1, 0, 1], [(-1, 0), (0, 1)], 0), ([0, -2, -1], [(-2, -1), (-1, 0)], 0),
+                            ([1, -1, 0, 2], [(-1, 0), (0, 1), (1, 2), (2, -1)], 0)]:
+        g = nx.Graph()
+        g.add_nodes_from(nodes)
+        for u, v in edges:
+            g.add_edge(u, v, bond=1)
+        yield mk(g, a, "corpus", "corpus")
 
 
 # ----------------------------------------------------------------------------- implementation
@@ -258,7 +357,8 @@ def snapshot(h):
             [(n, [(v, dict(dd)) for v, dd in h._adj[n].items()]) for n in h._adj])
 
 
-def run_impl(c):
+def run_once(c, with_dag):
+    """One call on a fresh copy of the case's graph. Every yielded list is read (copied) at the moment it is yielded."""
     h, fwd, back = named_graph(c)
     anchor = fwd(c["anchor"])
     if c.get("hist"):
@@ -274,7 +374,11 @@ def run_impl(c):
         h.add_edge(fwd(a1), fwd(a2), **lab)
     before = snapshot(h)
     try:
-        res = list(node_induced_connected_subgraphs(h, anchor))
+        if with_dag:
+            gen = node_induced_connected_subgraphs(h, anchor, DAG=nx.DiGraph())
+        else:
+            gen = node_induced_connected_subgraphs(h, anchor)
+        res = [list(sub) for sub in gen]
     except Exception as e:  # noqa
         return (type(e).__name__, str(e)[:200], snapshot(h) != before)
     mutated = snapshot(h) != before
@@ -285,8 +389,24 @@ def run_impl(c):
     return ("ok", out, mutated)
 
 
+def run_impl(c):
+    """(status, yields | message, input mutated?, result of the additional run with DAG=nx.DiGraph() | None)"""
+    plain = run_once(c, False)
+    return plain + ((run_once(c, True) if c.get("dag") else None),)
+
+
+def same_outcome(a, b):
+    return a[0] == b[0] and (a[0] != "ok" or a[1] == b[1])
+
+
 def py_invariants(c, out):
-    return ["the input graph was modified by node_induced_connected_subgraphs"] if out[2] else []
+    msgs = []
+    if out[2] or (out[3] is not None and out[3][2]):
+        msgs.append("the input graph was modified by node_induced_connected_subgraphs")
+    if out[3] is not None and not same_outcome(out, out[3]):
+        msgs.append("the yields with DAG=nx.DiGraph() differ from the yields without DAG: %s"
+                    % repr(out[3][1])[:300])
+    return msgs
 
 
 def out_term(out):
@@ -301,14 +421,20 @@ def coq_case(c, out):
     defs = {"g": ct.graph(c["graph"])}
     a = ct.z(c["anchor"])
     model = "node_induced_connected_subgraphs $g %s" % a
-    t = out_term(out)
-    if t is None:
-        # an exception class the model cannot produce (or ids that are not nodes): the call failed on a
-        # valid input, which the specification never allows
-        return {"defs": defs, "checks": {"agree": "false", "spec": "false"}, "diag": [model]}
-    defs["out"] = t
+    # the run with a DAG is checked separately only when it differs from the plain run
+    runs = [("out", out)] + ([("outd", out[3])] if out[3] is not None and not same_outcome(out, out[3]) else [])
+    agree, spec = [], []
+    for name, o in runs:
+        t = out_term(o)
+        if t is None:
+            # an exception class the model cannot produce (or ids that are not nodes): the call failed on a
+            # valid input, which the specification never allows
+            return {"defs": {"g": defs["g"]}, "checks": {"agree": "false", "spec": "false"}, "diag": [model]}
+        defs[name] = t
+        agree.append("yields_equivb (%s) $%s" % (model, name))
+        spec.append("cis_okb $g %s $%s" % (a, name))
     return {"defs": defs,
-            "checks": {"agree": "yields_equivb (%s) $out" % model, "spec": "cis_okb $g %s $out" % a},
+            "checks": {"agree": " && ".join(agree), "spec": " && ".join(spec)},
             "diag": [model, "connected_sets $g %s" % a]}
 
 
@@ -319,7 +445,7 @@ def _jname(x):
 
 def describe(c):
     return {"graph": ct.graph_py(c["graph"]), "anchor": c["anchor"], "scheme": c["scheme"], "src": c["src"],
-            "style": c["style"], "hist": c.get("hist"),
+            "style": c["style"], "hist": c.get("hist"), "dag": bool(c.get("dag")),
             "names": None if c["names"] is None else [[k, _jname(v)] for k, v in c["names"].items()]}
 
 
@@ -328,19 +454,21 @@ def from_json(d):
     if d.get("names") is not None:
         names = {k: (tuple(v) if isinstance(v, list) else v) for k, v in d["names"]}
     return {"graph": ct.graph_from_py(d["graph"]), "anchor": d["anchor"], "scheme": d["scheme"], "src": d["src"],
-            "style": d.get("style"), "names": names, "hist": d.get("hist")}
+            "style": d.get("style"), "names": names, "hist": d.get("hist"), "dag": bool(d.get("dag"))}
 
 
 def describe_out(out):
-    if out[0] == "ok":
-        return {"status": "ok", "yields": out[1], "input_mutated": out[2]}
-    return {"status": out[0], "msg": out[1], "input_mutated": out[2]}
+    d = {"status": "ok", "yields": out[1]} if out[0] == "ok" else {"status": out[0], "msg": out[1]}
+    d["input_mutated"] = out[2]
+    if len(out) > 3 and out[3] is not None:
+        d["with_DAG"] = describe_out(out[3])
+    return d
 
 
 def key(c):
     g = c["graph"]
     names = None if c["names"] is None else tuple(repr(c["names"][n]) for n in g._node)
-    return (tuple((n, tuple(g._adj[n])) for n in g._node), c["anchor"], names, repr(c.get("hist")))
+    return (tuple((n, tuple(g._adj[n])) for n in g._node), c["anchor"], names, repr(c.get("hist")), bool(c.get("dag")))
 
 
 def nontrivial(c, out):
@@ -354,6 +482,11 @@ def classes(c, out):
     yield "src=" + c["src"]
     yield "ids=" + ("nonint:" + c["style"] if c["names"] is not None else c["scheme"])
     yield "result=" + out[0]
+    yield "dag=" + ("yes" if c.get("dag") else "no")
+    if c["names"] is None and c["anchor"] in g:
+        yield "anchorid=" + ("0" if c["anchor"] == 0 else "n-1" if c["anchor"] == n - 1 else "other")
+        if all(x < n for x in g.nodes) and any(x < 0 for x in g.nodes):
+            yield "ids_all_below_n_some_negative=yes"
     if any(g.has_edge(u, u) for u in g.nodes):
         yield "selfloop=yes"
     if out[0] == "ok":
